@@ -152,6 +152,9 @@ def frames_alphabet():
     F["csm"] = rc.encode_tcp(CSM, b"", [(2, rc.uint(1152))], b"")
     F["csm-elective"] = rc.encode_tcp(CSM, b"", [(2, rc.uint(1152)), (8, b"x")], b"")
     F["csm-critical"] = rc.encode_tcp(CSM, b"", [(7, b"x")], b"")
+    # a CSM is a CSM whatever it carries: no option at all, or only an unknown elective one
+    F["csm-bare"] = rc.encode_tcp(CSM, b"", [], b"")
+    F["csm-elective-only"] = rc.encode_tcp(CSM, b"", [(8, b"x")], b"")
     for n in (0, 12, 13, 268, 269):
         if n == 0:
             F["req0"] = rc.encode_tcp(1, b"\x70", [], b"")
